@@ -1,5 +1,6 @@
 import BddProofs.IteConst
 import BddProofs.IteConstTotal
+import BddProofs.DriverSem
 /-! # C12 — constant and implication tests decide correctly, always return, build nothing -/
 namespace P
 
@@ -41,9 +42,21 @@ theorem C12_pinned_variant_asserts :
       (∃ s', iteConstantPinned 8 s f g h = .error (.assertion, s')) ∧
       (∃ s', iteConstant 8 s f g h = .ok (s', some true)) := iteConstantPinned_asserts
 
+/-- the same through the dispatcher the model driver really runs: an accepted `ite_constant` request
+answers `Some(b)` exactly when the ITE of the functions its three handles denote is the constant `b`, and
+leaves the node table, the size memo and every operation-cache answer as they were — no hypothesis about
+the handles (`exec_implies_sem` is the twin for `is_implies`) -/
+theorem C12_driver_reply {fuel : Nat} {s s' : St} {a b c : Ref} {o : Option Bool} (hg : Good s)
+    (hx : exec fuel s (.itec a b c) = .optBool (.ok (s', o))) :
+    ∃ φa φb φc, Valid s.nodes a φa ∧ Valid s.nodes b φb ∧ Valid s.nodes c φc ∧
+      (∀ v, o = some v ↔ ITE φa φb φc = fun _ => v) ∧ s'.storage = s.storage ∧ s'.sizeCache = s.sizeCache ∧
+      ∀ k, s'.cache.lookup k = s.cache.lookup k :=
+  exec_itec_sem hg hx
+
 end P
 #print axioms P.C12_ite_constant
 #print axioms P.C12_is_implies
 #print axioms P.C12_always_returns
 #print axioms P.C12_is_implies_returns
 #print axioms P.C12_pinned_variant_asserts
+#print axioms P.C12_driver_reply
